@@ -306,8 +306,14 @@ def fam_trim(ctx, rng):
     info["time_vector_used_before"] = used_time
     refuse = (s < 0) or (s >= e) or (e > t[-1] * (1 + 1e-12) + 1e-15)
     unclear = (not refuse) and (e > t[-1])          # within rounding of the record's end
+    s_arg, e_arg = s, e
+    if rng.random() < 0.3:
+        # the limits as other numeric types holding the same values (np.float64 from a table, Python / NumPy ints for whole seconds)
+        s_arg, ts_ = gen.scalar_form(rng, s, allow=["float", "float64", "zero-dim-array", "int", "int64", "int32", "float32"])
+        e_arg, te_ = gen.scalar_form(rng, e, allow=["float", "float64", "zero-dim-array", "int", "int64", "int32", "float32"])
+        info["limits_given_as"] = [ts_, te_]
     try:
-        obj.trim(s, e)
+        obj.trim(s_arg, e_arg)
         err = None
     except Exception as ex:
         err = ex
